@@ -33,8 +33,15 @@ def main():
     mod = importlib.import_module("harness." + a.pid.lower())
     ck = lib.Check(a.pid, a.tier, a.seed, level=getattr(mod, "LEVEL", "proof"))
     if a.replay:
-        rc = mod.replay(ck, a.replay) if hasattr(mod, "replay") else 2
-        sys.exit(rc)
+        # a replay file records the seed and tier of the run that produced it (all generators are deterministic in the
+        # seed), the failing input and what was observed; modules may provide a focused replay(), otherwise the check is
+        # re-run with the recorded seed/tier, which regenerates and re-evaluates the same input
+        import json
+        doc = json.load(open(a.replay))
+        print("[replay] %s: %s" % (doc.get("property"), doc.get("what")))
+        if hasattr(mod, "replay"):
+            sys.exit(mod.replay(ck, a.replay))
+        ck = lib.Check(a.pid, doc.get("tier", a.tier), int(doc.get("seed", a.seed)), level=getattr(mod, "LEVEL", "proof"))
     try:
         mod.run(ck)
     except Exception:
